@@ -156,6 +156,7 @@ void fdSnapshot(const std::string &label)
 void endRun(const char *reason, int code)
 {
     if (g_active && !g_scn.snaps.empty()) fdSnapshot("end");
+    if (g_active && g_scn.knobU("rock.walk", 0, 0) && flagSet("ready") && !strcmp(reason, "done")) verif_rock_walk("end");
     for (auto &p : g_probes) hist("PROBE\t%s\t%llu", p.first.c_str(), (unsigned long long)p.second);
     hist("END\t%s", reason);
     histFlush();
@@ -707,7 +708,10 @@ int __wrap_epoll_wait(int epfd, struct epoll_event *evs, int maxev, int timeoutM
             endRun("harness-done", rc);
         }
     }
-    if (!flagSet("ready") && verif_store_rebuilding() == 0) { hist("LIFE\tready"); setFlag("ready"); }
+    if (!flagSet("ready") && verif_store_rebuilding() == 0) {
+        hist("LIFE\tready"); setFlag("ready");
+        if (g_scn.knobU("rock.walk", 0, 0)) verif_rock_walk("ready");
+    }
     if (g_scn.mode != "P") {
         auto ih = idleHooks().find(g_scn.mode);
         if (ih != idleHooks().end()) {
